@@ -49,13 +49,13 @@ VAL_OPS = ["todense", "toarray", "diag_0", "diag_1", "diag_m1", "diag_2", "diag_
 # corner cases of the listed operations; exercised at depth 1 only (they would drown the compositions)
 # (`+=`/`-=` with a scalar 0 or a dense array were tried and removed: DyadCarrier defines its in-place operators for
 #  dyadic operands only, and the property does not ask for more -> demanding them was a false alarm of the check)
-CORNER_OPS = ["set_all", "gi_ll", "mm_Be", "cm_mix"]
+CORNER_OPS = ["set_all", "gi_ll", "mm_Be", "cm_mix", "ct_Mrneg", "ct_Mrcmask", "ct_rcneg"]
 ALL_OPS = DY_OPS + INP_OPS + VAL_OPS
 GI_DYAD = {"gi_ss", "gi_full", "gi_step", "gi_as", "gi_sa", "gi_ms", "gi_ls", "gi_el", "gi_empty"}
 NO_OPERAND = {"neg", "pos", "copy", "T", "transpose", "conj", "real", "imag", "add_0i", "radd_0i", "add_0f",
               "sub_0i", "rsub_0i", "rsub_0f", "todense", "toarray", "diag_0", "diag_1", "diag_m1", "diag_2",
               "diag_m3", "ct", "ct_brc", "set_row", "set_col", "set_rows", "set_cols_idx", "set_all",
-              "iadd_0", "isub_0", "add_Be", "iadd_Be", "mm_Be", "cm_mix"} | {o for o in ALL_OPS + CORNER_OPS
+              "iadd_0", "isub_0", "add_Be", "iadd_Be", "mm_Be", "cm_mix", "ct_rcneg"} | {o for o in ALL_OPS + CORNER_OPS
                                                                            if o.startswith("gi_")}
 SAFE_EMPTY = {"todense", "toarray", "copy", "neg", "T", "conj", "diag_0"}     # ops used on 0 x m carriers
 CTORS = ["vec", "vecs", "one", "tup", "lst", "blk", "blk3", "sca", "sym", "add", "shape0"]
@@ -704,6 +704,23 @@ class St:
             return VAL, dc[idx], cp(ref[idx]), []
         if op == "ct":
             return VAL, dc.contract(), ref_contract(ref, None, np.arange(n), np.arange(n)), []
+        if op in ("ct_Mrneg", "ct_Mrcmask", "ct_rcneg"):
+            # index sets as NumPy accepts them: negative entries count from the end, boolean masks select by position
+            if op == "ct_Mrcmask":
+                rmask = np.array([i % 2 == 0 for i in range(n)])
+                cmask = np.array([j != 0 or m == 1 for j in range(m)])
+                rows, cols = rmask, cmask
+                rref, cref = np.flatnonzero(rmask), np.flatnonzero(cmask)
+            else:
+                rows, cols = np.array([-1, 0]), np.array([0, -1])
+                rref, cref = np.array([n - 1, 0]), np.array([0, m - 1])
+            if op == "ct_rcneg":
+                return VAL, dc.contract(rows=rows, cols=cols), ref_contract(ref, None, rref, cref), []
+            if op == "ct_Mrneg":
+                Md = self.dense_operand(lab_of(pre, "M"), self.arr(pre + "M", (2, m), to))
+                return VAL, dc.contract(Md, rows=rows), ref_contract(ref, Md, rref, None), []
+            Md = self.dense_operand(lab_of(pre, "M"), self.arr(pre + "M", (len(rref), len(cref)), to))
+            return VAL, dc.contract(Md, rows=rows, cols=cols), ref_contract(ref, Md, rref, cref), []
         if op.startswith("ct_"):
             rows1, cols1 = np.array([n - 1, 0]), np.array([0, m - 1])
             rows2, cols2 = np.array([[n - 1, 0], [0, n - 1]]), np.array([[0, m - 1], [m - 1, m // 2]])
